@@ -63,10 +63,24 @@ pub(crate) fn named(attr: &StructAttr, ts_name: Expr, fields: &FieldsNamed) -> R
 
     let inline = match (formatted_fields.len(), flattened_fields.len()) {
         (0, 1) => quote! {{
-            if #flattened.starts_with('(') && #flattened.ends_with(')') {
-                #flattened[1..#flattened.len() - 1].trim().to_owned()
+            let flattened = #flattened;
+            // parentheses around the whole text are dropped; in `(A | B) & (C | D)` the first and the last
+            // parenthesis do not belong together
+            let mut depth = 0i32;
+            let wrapped = flattened.starts_with('(')
+                && flattened.ends_with(')')
+                && flattened.char_indices().all(|(i, c)| {
+                    match c {
+                        '(' => depth += 1,
+                        ')' => depth -= 1,
+                        _ => (),
+                    }
+                    depth > 0 || i + 1 == flattened.len()
+                });
+            if wrapped {
+                flattened[1..flattened.len() - 1].trim().to_owned()
             } else {
-                #flattened.trim().to_owned()
+                flattened.trim().to_owned()
             }
         }},
         (_, _) => merged.clone(),
